@@ -221,7 +221,10 @@ def merge_states(states):
     for g in gk:
         vals = [s.ghost.get(g) for s in states]
         if all(v is not None for v in vals):
-            out.ghost[g] = ite([Z(v) for v in vals])
+            if isinstance(vals[0], tuple):
+                out.ghost[g] = (vals[0][0], ite([v[1] for v in vals]))
+            else:
+                out.ghost[g] = ite([Z(v) for v in vals])
     return out
 
 
@@ -704,9 +707,15 @@ class CExec:
             if not isinstance(sz, SizeOf):
                 raise CheckerError("malloc argument is not sizeof(T)*n")
             return ("malloc", sz)
-        if name in ("free", "printf", "fprintf"):
-            for a in argn:
-                pass
+        if name == "free":
+            # the freed block's final contents stay visible to the contract as a ghost (V.a.<name>)
+            a0 = self._strip(argn[0])
+            if a0.get("kind") == "DeclRefExpr":
+                pv = st.vars.get(a0["referencedDecl"]["id"])
+                if isinstance(pv, Ptr) and pv.block is not None and pv.block in st.mem:
+                    st.ghost["freed:" + a0["referencedDecl"]["name"]] = (pv, st.mem[pv.block])
+            return None
+        if name in ("printf", "fprintf"):
             return None
         if name == "omp_get_max_threads":
             return z3.Int("omp_max_threads")
@@ -1230,8 +1239,14 @@ class CExec:
                 continue
             else:
                 scal[nm] = val
+        for gk, gv in st.ghost.items():
+            if gk.startswith("freed:") and isinstance(gv, tuple):
+                nm = gk[6:]
+                if nm not in arrs:
+                    pv, arrt = gv
+                    arrs[nm] = ArrayView(self, arrt, pv.block, pv.off, pv.block.shape)
         V = NS({"v": NS(scal), "p": self.cur_P, "a": NS(arrs), "null": NS(nulls),
-                "old": self.cur_old, "pre": pre, "ret": None, "g": NS(st.ghost), "ex": self, "st": st})
+                "old": self.cur_old, "pre": pre, "ret": None, "g": NS({k_: v_ for k_, v_ in st.ghost.items() if not isinstance(v_, tuple)}), "ex": self, "st": st})
         return V
 
     def custom(self, V, kind, label, goal, hyps=(), backend="smt", pairs=None, replay=None, tactic=None):
@@ -1653,6 +1668,19 @@ class CExec:
             st.pc.append(r)
         if contract.facts:
             self.facts = list(contract.facts(V0))
+        if contract.derived:
+            for item in contract.derived(V0):
+                lab, fm = item[0], item[1]
+                hy = list(st.pc)
+                if len(item) > 2:
+                    # proved from an explicitly named subset of the precondition (keeps the query small)
+                    hy = []
+                    for h in item[2]:
+                        if not any(h.eq(p_) for p_ in st.pc):
+                            raise CheckerError("%s: derived fact %s uses a hypothesis that is not a requires clause: %s" % (self.prefix, lab, h))
+                        hy.append(h)
+                self.sink.add(self.prefix, "derived", hy, fm, meta={"label": lab})
+                self.facts.append(fm)
         # cover: precondition satisfiable
         ob = self.sink.add(self.prefix, "cover", [], z3.And(*st.pc) if st.pc else z3.BoolVal(True), expect="sat",
                            meta={"label": "precondition satisfiable"})
